@@ -431,6 +431,16 @@ def run_cli_matrix(ctx, binpath, metas, variants, jobs=16):
                         klist.append({"name": "R%d" % cap, "capacity": cap, "quantity": q})
                     if fancy and cap % 3 == 0:
                         klist.append({"name": "leer%d" % cap, "capacity": cap, "quantity": 0})
+                if m["id"] % 5 == 4:
+                    # namesakes: every kind is called "Raum" (the same name for different capacities), and a capacity with several rooms is given
+                    # by TWO entries of the same name and capacity -- a rooms file is a list, nothing forbids repeated entries
+                    klist = []
+                    for cap, q in sorted(kinds.items(), reverse=(m["id"] % 2 == 0)):
+                        if q >= 2:
+                            klist.append({"name": "Raum", "capacity": cap, "quantity": 1})
+                            klist.append({"name": "Raum", "capacity": cap, "quantity": q - 1})
+                        else:
+                            klist.append({"name": "Raum", "capacity": cap, "quantity": q})
                 json.dump(klist, open(rf, "w"))
                 rooms_arg = ("file", klist)
                 args += ["--rooms-file", rf]
@@ -438,6 +448,8 @@ def run_cli_matrix(ctx, binpath, metas, variants, jobs=16):
                 continue              # instances generated with rooms are only run with their rooms
             if v.get("print"):
                 args.append("--print")
+            if v.get("report"):
+                args.append("--report-no-solution")
             outp = None
             args.append(m["file"])
             if v.get("out", True):
